@@ -104,6 +104,53 @@ pub struct TlsCase {
     /// stack size of the surviving thread that reclaims afterwards (0 = the main thread)
     #[serde(default)]
     pub survivor_stack_kib: u32,
+    /// each of the `owned_many` pointers is the head of a chain of this many further nodes
+    #[serde(default)]
+    pub chain_len: u8,
+    /// every node of those chains has been weakly referenced once (its disposal then defers the
+    /// release of the block)
+    #[serde(default)]
+    pub chain_weaked: bool,
+    /// collection rounds the destructor runs after releasing them
+    #[serde(default)]
+    pub dtor_rounds: u8,
+    /// stack size of the short-lived thread itself (0 = Rust's default of 2 MiB)
+    #[serde(default)]
+    pub thread_stack_kib: u32,
+}
+
+/// A thread-local destructor that, after the handle is gone, releases many small structures and
+/// then runs collection rounds itself: the collection, the disposal passes inside it and whatever
+/// those defer all happen on temporary participants.
+pub fn teardown_collects_strategy(t: crate::runner::Tier) -> BoxedStrategy<Value> {
+    let maxn = t.pick(3_000u32, 12_000u32);
+    (
+        0u8..20,
+        (6.0f64..(maxn as f64).log2()).prop_map(|e| e.exp2() as u32),
+        prop_oneof![1 => Just(0u8), 1 => Just(3u8), 1 => Just(40u8), 1 => Just(63u8), 3 => Just(64u8), 3 => Just(70u8), 3 => Just(100u8)],
+        prop_oneof![3 => Just(true), 1 => Just(false)],
+        4u8..12,
+        prop_oneof![3 => Just(256u32), 2 => Just(512u32), 1 => Just(0u32)],
+        prop_oneof![3 => Just(true), 1 => Just(false)],
+    )
+        .prop_map(|(align, owned_many, chain_len, chain_weaked, dtor_rounds, thread_stack_kib, handle_at_all)| {
+            serde_json::to_value(TlsCase {
+                align,
+                init_order: if handle_at_all { vec![0, 3] } else { vec![0] },
+                dtor_actions: vec![vec![], vec![], vec![]],
+                body: vec![],
+                pending: 0,
+                owned: 0,
+                owned_many,
+                survivor_stack_kib: 0,
+                chain_len,
+                chain_weaked,
+                dtor_rounds,
+                thread_stack_kib,
+            })
+            .unwrap()
+        })
+        .boxed()
 }
 
 /// A thread-local destructor that releases a large collection after the handle is gone (each
@@ -127,6 +174,10 @@ pub fn pile_up_strategy(t: crate::runner::Tier) -> BoxedStrategy<Value> {
                 owned: 0,
                 owned_many,
                 survivor_stack_kib,
+                chain_len: 0,
+                chain_weaked: false,
+                dtor_rounds: 0,
+                thread_stack_kib: 0,
             })
             .unwrap()
         })
@@ -153,6 +204,10 @@ pub fn strategy() -> BoxedStrategy<Value> {
                 owned,
                 owned_many: 0,
                 survivor_stack_kib: 0,
+                chain_len: 0,
+                chain_weaked: false,
+                dtor_rounds: 0,
+                thread_stack_kib: 0,
             })
             .unwrap()
         })
@@ -174,6 +229,8 @@ struct Obj {
     weaks: Vec<Weak<TNode>>,
     /// was circ's handle initialised after this object (then it is gone when our Drop runs)?
     handle_later: bool,
+    /// collection rounds to run after everything owned has been released
+    rounds_after: u8,
 }
 
 fn perform(a: Act, arg: u8, rcs: &mut Vec<Rc<TNode>>, weaks: &mut Vec<Weak<TNode>>) {
@@ -269,6 +326,15 @@ impl Drop for Obj {
             }
         }
         let _ = self.idx;
+        if self.rounds_after > 0 {
+            // release everything that is owned, then collect, all inside the destructor
+            self.rcs.clear();
+            self.weaks.clear();
+            for _ in 0..self.rounds_after {
+                let g = cs();
+                g.flush();
+            }
+        }
         // whatever is still owned is dropped now, inside the destructor
     }
 }
@@ -300,8 +366,14 @@ pub fn exec(_prop: &str, v: &Value) -> Report {
     let sh: &'static Shared = Box::leak(Box::new(Shared { cell: AtomicRc::null() }));
     *SHARED.lock().unwrap() = Some(sh);
     let c2 = case.clone();
-    let th = std::thread::Builder::new()
-        .name("short-lived".into())
+    let mut builder = std::thread::Builder::new().name("short-lived".into());
+    if case.thread_stack_kib > 0 {
+        builder = builder.stack_size(case.thread_stack_kib as usize * 1024);
+    }
+    if case.dtor_rounds > 0 {
+        crate::runner::crash_context("destructor-collects-after-handle-is-gone");
+    }
+    let th = builder
         .spawn(move || {
             let c = c2;
             let mut handle_inited = false;
@@ -322,6 +394,7 @@ pub fn exec(_prop: &str, v: &Value) -> Report {
                         rcs: Vec::new(),
                         weaks: Vec::new(),
                         handle_later: !handle_inited,
+                        rounds_after: 0,
                     };
                     if handle_inited {
                         for _ in 0..c.owned {
@@ -332,13 +405,40 @@ pub fn exec(_prop: &str, v: &Value) -> Report {
                     } else {
                         late_fill.push(idx);
                     }
-                    if !handle_inited && c.owned_many > 0 && idx == c.init_order.iter().cloned().find(|w| *w != 3).unwrap_or(9) as usize {
-                        // (Rc::new needs no participant handle)
-                        for _ in 0..c.owned_many {
-                            o.rcs.push(mk());
+                    let fill_many = !handle_inited && c.owned_many > 0 && idx == c.init_order.iter().cloned().find(|w| *w != 3).unwrap_or(9) as usize;
+                    install(idx, o);
+                    if fill_many {
+                        // The object's TLS destructor is registered now. Filling it may use the
+                        // library (dropping a Weak enters a critical section) and thereby create
+                        // the participant handle: later than the object, so the handle is
+                        // destroyed first.
+                        let fill = |o: &mut Obj| {
+                            for _ in 0..c.owned_many {
+                                let mut head = mk();
+                                if c.chain_weaked {
+                                    drop(head.downgrade());
+                                }
+                                for _ in 0..c.chain_len {
+                                    CREATED.fetch_add(1, SeqCst);
+                                    let n = Rc::new(TNode { v: 0x7157, next: AtomicRc::from(head) });
+                                    if c.chain_weaked {
+                                        drop(n.downgrade());
+                                    }
+                                    head = n;
+                                }
+                                o.rcs.push(head);
+                            }
+                            o.rounds_after = c.dtor_rounds;
+                        };
+                        match idx {
+                            0 => OBJ_A.with(|x| fill(x.borrow_mut().as_mut().unwrap())),
+                            1 => OBJ_B.with(|x| fill(x.borrow_mut().as_mut().unwrap())),
+                            _ => OBJ_C.with(|x| fill(x.borrow_mut().as_mut().unwrap())),
+                        }
+                        if c.chain_weaked {
+                            handle_inited = true;
                         }
                     }
-                    install(idx, o);
                 }
             }
             // body
@@ -431,6 +531,9 @@ pub fn exec(_prop: &str, v: &Value) -> Report {
     rep.count("quiesce_rounds", rounds);
     if !case.init_order.contains(&3) && !uses_circ_in_body {
         rep.label("circ-first-used-inside-destructor");
+    }
+    if case.dtor_rounds > 0 {
+        rep.label("destructor-collects-after-handle-is-gone");
     }
     if case.owned_many > 0 {
         rep.label("large-collection-released-inside-destructor");
